@@ -41,6 +41,7 @@ def check(ctx):
     cur_env = None
     n = t2_bad = t3_bad = nsub = missing = 0
     reported = set()
+    plain = {}
     for a, b, x, aa in run.records():
         sid, form, hx, ia, ib, f = rtcat.split_line(a)
         en = sid.split(".")[0]
@@ -50,12 +51,10 @@ def check(ctx):
         n += 1
         if a != b:
             t2_bad += 1
-            if sid not in reported and len(reported) < 6:
-                reported.add(sid)
-                ctx.violation("model/implementation correspondence broken on %s (%s input)" % (sid, form),
+            if sid not in plain and len(plain) < 40:
+                plain[sid] = ("model/implementation correspondence broken on %s (%s input)" % (sid, form),
                               dict(core.describe(envs, sid), form=form, input_hex=hx, a=ia, b=ib, impl=a, model=b,
-                                   broken="correspondence Sem.v / Base.v (input cursors) vs main/src/input.rs"),
-                              found_input=False)
+                                   broken="correspondence Sem.v / Base.v (input cursors) vs main/src/input.rs"))
         if form == "str":
             fresh[(sid, hx)] = f
             continue
@@ -91,6 +90,12 @@ def check(ctx):
         ctx.count("family=%s" % fam_of.get(en, ""))
         if nsub % 9973 == 0 and len(ctx.samples) < 6:
             ctx.samples.append({"case": a[:300]})
+    # bare correspondence breaks: only for shapes on which no explored sub-input violates the property itself
+    k = 0
+    for sid, (msg, rep) in plain.items():
+        if sid not in reported and k < (2 if reported else 6):
+            k += 1
+            ctx.violation(msg, rep, found_input=False)
     ctx.evaluations += n
     ctx.coverage.update({"t2_mismatches": t2_bad, "t3_failures": t3_bad, "sub_input_cases": nsub,
                          "sub_input_cases_without_fresh_counterpart": missing,
